@@ -9,6 +9,18 @@ import core, pipeline
 from core import log, Broken
 
 
+def self_tok_only(c):
+    """the exhaustive run-time model generates token values: programs whose providers return token types (or pointers to them)"""
+    kinds = {a['id']: a['kind'] for a in c['prog']['atoms']}
+    for l in c['prog']['leaves']:
+        if l['k'] == 'func':
+            t = l['out'].lstrip('*')
+            yield kinds.get(t) in ('tok', 'struct', 'iface') and '[]' not in l['out'] and not any('[]' in i for i in l['ins'])
+        elif l['k'] in ('value', 'ivalue'):
+            yield False
+    yield not any('[]' in p['type'] for i in c['prog']['injs'] for p in i['params'])
+
+
 class Ctx:
     def __init__(self, pid, tier, seed, level):
         self.pid, self.tier, self.seed = pid, tier, seed
@@ -104,6 +116,30 @@ class Ctx:
                 f.write(txt)
         self.res.violations.append((key, d))
         print('VIOLATION property=%s replay=%s' % (self.pid, d), flush=True)
+
+    def design_inject(self, cases, maxcalls=2, limit=700, label=''):
+        """Exhaustive TLC exploration of WireInject over the accepted programs among `cases`:
+        every dependency-respecting call order, every failure point, repeated calls."""
+        acc = [c for c in cases if any(e['verdict'] == 'yes' for e in c['expect'])
+               and all(self_tok_only(c))]
+        acc = core.sample(acc, limit, self.seed)
+        if not acc:
+            return
+        self.nbatch += 1
+        path = self.sc.path('mc%d.cases.ndjson' % self.nbatch)
+        with open(path, 'w') as f:
+            for c in acc:
+                f.write(json.dumps(c) + '\n')
+        cfg = ('SPECIFICATION MCSpec\nCONSTANTS\n CheckW = TRUE\n CheckE = TRUE\n CheckC = TRUE\n MaxCalls = %d\n CasesFile = "%s"\n'
+               'INVARIANTS TypeOK AtMostOnce ReleaseIsReversePrefix NoCleanupWhileRunning AllReleasedWhenDone AcquiredRan '
+               'DependentBeforeDependency DependencyOrder NoCallAfterFailure NoLeak\nPROPERTY Terminates\nCHECK_DEADLOCK FALSE\n' % (maxcalls, path))
+        rc, out, dt = core.tlc(self.sc, 'WireInjectMC', None, cfg, workers=8, timeout=3000)
+        if rc != 0 or 'No error has been found' not in out:
+            raise Broken('WireInjectMC reports an error (a defect of the specification, never a violation): ' + out[-3000:])
+        g, d = core.tlc_stats(out)
+        log('WireInject model-checked over %d programs: %d states generated, %d distinct (%.1fs)' % (len(acc), g, d, dt))
+        self.add_design('WireInjectMC %s(%d programs, <=%d calls each)' % (label, len(acc), maxcalls), g, d,
+                        'invariants TypeOK AtMostOnce ReleaseIsReversePrefix NoCleanupWhileRunning AllReleasedWhenDone AcquiredRan DependentBeforeDependency DependencyOrder NoCallAfterFailure NoLeak; liveness Terminates')
 
     def add_design(self, name, states, distinct, note):
         self.design.append({'model': name, 'states_generated': states, 'distinct_states': distinct, 'note': note})
